@@ -183,3 +183,141 @@ Section Main.
     intros e He. specialize (H e He). unfold delta, zidx in H. cbn [fst] in H. rewrite Nat2Z.id in H. exact H.
   Qed.
 End Main.
+
+(* ---------------- exactness survives every later push of a true distance ---------------- *)
+Section ExactPreserved.
+  Variable dm : nat -> nat -> Z.
+  Variable inf : Z.
+  Variables n k : nat.
+  Hypothesis Hk : (0 < k)%nat.
+  Hypothesis dm_sym : forall a b, dm a b = dm b a.
+
+  Local Notation GWF := (GWF dm inf n k).
+  Local Notation RowWF := (RowWF dm inf n).
+  Local Notation upd_true := (upd_true dm n).
+
+  (* row p is exact up to ties: every other point is in the row, or is no closer than every entry *)
+  Definition ExactRow (p : nat) (l : list entry) : Prop :=
+    forall q, (q < n)%nat -> q <> p -> In (Z.of_nat q) (map eid (real l)) \/ forall e, In e l -> key e <= dm p q.
+  Definition ExactG (g : graph) : Prop := forall p, (p < n)%nat -> ExactRow p (grow g p).
+
+  Lemma exact_push p l d j f :
+    (0 < length l)%nat -> RowWF p l -> ExactRow p l -> 0 <= j < Z.of_nat n -> d = dm p (zidx j) ->
+    ExactRow p (snd (pushz true l (d, j, f))).
+  Proof.
+    intros L0 [Hh [Hnd Hent]] HE Hj Hd.
+    pose proof (pushz_outcome true l (d, j, f) L0 Hh) as PO.
+    inversion PO as [Hw E | Hlt Hc Hdup E | l' Hlt Hc P Hh' Ll' E]; cbn [snd]; [exact HE|exact HE|].
+    cbn [key eid fst snd] in Hlt.
+    assert (Hroot_in : In (getE l 0) l) by (apply getE_In; auto).
+    assert (Hsub : forall e, In e l' -> e = (d, j, f) \/ In e l).
+    { intros e He. assert (H : In e ((d, j, f) :: l)) by (eapply Permutation_in; [exact P|right; auto]).
+      destruct H as [<-|]; auto. }
+    assert (Hle : forall e, In e l' -> key e <= key (getE l 0)).
+    { intros e He. destruct (Hsub e He) as [->|Hin]; [cbn [key fst]; lia|apply heapP_In_le_root; auto]. }
+    intros q Hq Hne. destruct (HE q Hq Hne) as [Hin|Hall].
+    - apply in_map_iff in Hin. destruct Hin as [e [Heid Hreal]]. apply (In_real (fun z => z) 0) in Hreal. destruct Hreal as [Hel Hid].
+      assert (Hin' : In e (getE l 0 :: l')) by (eapply Permutation_in; [apply Permutation_sym; exact P|right; exact Hel]).
+      destruct Hin' as [Hroot|Hl'].
+      + right. intros e' He'. specialize (Hle e' He'). rewrite Hroot in Hle.
+        destruct (Hent e Hel) as [[Hs _]|[_ [Hk' _]]]; [congruence|].
+        rewrite Hk', Heid in Hle. unfold zidx in Hle. rewrite Nat2Z.id in Hle. exact Hle.
+      + left. apply in_map_iff. exists e. split; auto. apply <- (In_real (fun z => z) 0). split; [exact Hl'|rewrite Heid; lia].
+    - right. intros e' He'. specialize (Hle e' He'). specialize (Hall _ Hroot_in). lia.
+  Qed.
+
+  Lemma GWF_exact_push g r d j f :
+    GWF g -> ExactG g -> (r < n)%nat -> 0 <= j < Z.of_nat n -> d = dm r (zidx j) ->
+    ExactG (snd (push_row g r d j f)).
+  Proof.
+    intros [Hwf Hrows] HE Hr Hj Hd p Hp.
+    destruct (Hrows r Hr) as [Hh Hrest].
+    destruct (push_row_spec n k g r d j f Hk Hwf Hr Hh) as [_ [_ [Hrow' Hoth]]].
+    destruct (Nat.eq_dec p r) as [->|Hne].
+    - rewrite Hrow'. apply exact_push; auto.
+      + destruct Hwf as [_ [_ [_ Hl]]]. unfold grow. rewrite zip3_length. destruct (Hl r Hr) as [_ [-> _]]. auto.
+    - rewrite Hoth by auto. apply HE; auto.
+  Qed.
+
+  Definition Inv2 (g : graph) : Prop := GWF g /\ ExactG g.
+
+  Lemma push_Inv2 g r d j f : Inv2 g -> (r < n)%nat -> 0 <= j < Z.of_nat n -> d = dm r (zidx j) -> Inv2 (snd (push_row g r d j f)).
+  Proof. intros [HG HE] Hr Hj Hd. split; [apply (GWF_push dm inf n k Hk); auto|apply GWF_exact_push; auto]. Qed.
+
+  Lemma zl z : 0 <= z < Z.of_nat n -> (zidx z < n)%nat.
+  Proof. unfold zidx; lia. Qed.
+
+  Lemma apply_both_Inv2 g u : Inv2 g -> upd_true u -> Inv2 (apply_both g u).
+  Proof.
+    intros HI Hu. destruct u as [[p q] d]. unfold apply_both, C01Proofs.upd_true in *.
+    destruct (Z.eqb_spec p (-1)); [auto|]. destruct (Z.eqb_spec q (-1)); [auto|]. cbn [orb].
+    destruct Hu as [?|[?|[Hp [Hq Hd]]]]; try contradiction.
+    apply push_Inv2; auto using zl. 2:{ rewrite Hd. apply dm_sym. }
+    apply push_Inv2; auto using zl.
+  Qed.
+
+  Lemma apply_low_one_Inv2 T t g c u : Inv2 g -> upd_true u -> Inv2 (fst (apply_low_one T t (g, c) u)).
+  Proof.
+    intros HI Hu. destruct u as [[p q] d]. unfold apply_low_one, C01Proofs.upd_true in *.
+    destruct (Z.eqb_spec p (-1)); [auto|]. destruct (Z.eqb_spec q (-1)); [auto|]. cbn [orb].
+    destruct Hu as [?|[?|[Hp [Hq Hd]]]]; try contradiction.
+    assert (G1 : Inv2 (snd (push_row g (zidx p) d q 1))) by (apply push_Inv2; auto using zl).
+    destruct (p mod T =? t).
+    - destruct (push_row g (zidx p) d q 1) as [a g1]. cbn [snd] in G1.
+      destruct (q mod T =? t); [|auto].
+      assert (G2 : Inv2 (snd (push_row g1 (zidx q) d p 1))).
+      { apply push_Inv2; auto using zl. rewrite Hd. apply dm_sym. }
+      destruct (push_row g1 (zidx q) d p 1). auto.
+    - destruct (q mod T =? t); [|auto].
+      assert (G2 : Inv2 (snd (push_row g (zidx q) d p 1))).
+      { apply push_Inv2; auto using zl. rewrite Hd. apply dm_sym. }
+      destruct (push_row g (zidx q) d p 1). auto.
+  Qed.
+
+  Lemma fold_Inv2 {S U : Type} (proj : S -> graph) (f : S -> U -> S) (ok : U -> Prop) :
+    (forall s u, Inv2 (proj s) -> ok u -> Inv2 (proj (f s u))) ->
+    forall us s, Inv2 (proj s) -> Forall ok us -> Inv2 (proj (fold_left f us s)).
+  Proof.
+    intros Hstep us. induction us as [|u us IH]; intros s Hs Hok; cbn; auto.
+    inversion Hok; subst. apply IH; auto.
+  Qed.
+
+  (* a whole low-memory round of NN-descent keeps an exact graph exact *)
+  Theorem apply_low_keeps_exact g ups T :
+    GWF g -> ExactG g -> Forall (Forall upd_true) ups ->
+    ExactG (fst (apply_graph_updates_low_memory g ups T)) /\ GWF (fst (apply_graph_updates_low_memory g ups T)).
+  Proof.
+    intros HG HE Hok.
+    assert (I : Inv2 (fst (apply_graph_updates_low_memory g ups T))).
+    { unfold apply_graph_updates_low_memory.
+      apply (fold_Inv2 (S := graph * Z) fst _ (fun _ : Z => True)); [|cbn [fst]; unfold Inv2; auto|apply Forall_forall; auto].
+      intros s t Hs _.
+      apply (fold_Inv2 (S := graph * Z) fst _ (Forall upd_true)); auto.
+      intros s' ul Hs' Hul.
+      apply (fold_Inv2 (S := graph * Z) fst _ upd_true); auto.
+      intros [g0 c0] u Hg Hu. apply apply_low_one_Inv2; auto. }
+    destruct I; split; auto.
+  Qed.
+
+  Theorem leaf_updates_keep_exact g ups :
+    GWF g -> ExactG g -> Forall (Forall upd_true) ups ->
+    ExactG (fold_left (fun g ul => fold_left apply_both ul g) ups g).
+  Proof.
+    intros HG HE Hok.
+    assert (I : Inv2 (fold_left (fun g ul => fold_left apply_both ul g) ups g)).
+    { apply (fold_Inv2 (S := graph) (fun g => g) _ (Forall upd_true)); [|unfold Inv2; auto|auto].
+      intros s ul Hs Hul. apply (fold_Inv2 (S := graph) (fun g => g) _ upd_true); auto.
+      intros; apply apply_both_Inv2; auto. }
+    destruct I; auto.
+  Qed.
+End ExactPreserved.
+
+(* the single-leaf theorem in the vocabulary of the preservation theorem *)
+Theorem single_leaf_ExactG : forall (dm : nat -> nat -> Z) (inf : Z) (n k : nat),
+  (0 < k)%nat -> (forall a b, dm a b = dm b a) -> (forall a b, dm a b < inf) ->
+  forall leaf, NoDup leaf -> (forall x, In x leaf -> 0 <= x < Z.of_nat n) -> (forall i, (i < n)%nat -> In (Z.of_nat i) leaf) ->
+  ExactG dm n (init_rp_tree inf dm (make_heap inf n k) [leaf]).
+Proof.
+  intros dm inf n k Hk Hs Hf leaf Hnd Hr Hall p Hp q Hq Hne.
+  apply (single_leaf_exact dm inf n k Hk Hs Hf leaf p q); auto.
+Qed.
